@@ -5,10 +5,10 @@ from props import gpcommon as G
 
 ID = "C16"
 SCEN_FLAGS = {0: "callbacks_pending_at_fork", 2: "per_cpu_helpers", 3: "per_thread_helper", 4: "hash_table_resize_worker_live", 5: "bp_reader_inside_section_at_fork",
-              6: "child_completed", 7: "forked_twice", 9: "first_table_created_by_plain_thread_around_fork", 10: "child_created_own_table", 11: "child_section_vs_own_grace_period", 12: "bp_synchronize_rcu_in_flight_at_fork", 8: "some_callback_ran_before_fork", 48: "futex_sleep", 49: "futex_wake_hit", 56: "mutex_block", 58: "forked"}
+              6: "child_completed", 7: "forked_twice", 9: "first_table_created_by_plain_thread_around_fork", 10: "child_created_own_table", 11: "child_section_vs_own_grace_period", 12: "bp_synchronize_rcu_in_flight_at_fork", 13: "second_thread_forks_with_its_own_signal_mask", 8: "some_callback_ran_before_fork", 48: "futex_sleep", 49: "futex_wake_hit", 56: "mutex_block", 58: "forked"}
 RULE = ("Hypothesis generates the forking thread's program (call_rcu, additions to an AUTO_RESIZE hash table that queue lazy resizes, synchronize_rcu, rcu_barrier, read-side "
         "sections, one or two fork() calls bracketed by the documented handlers), the helper layout (default only / per-thread / per-CPU helpers on a simulated 2-CPU "
-        "machine, RT or futex-woken), for bp up to three other threads that may be inside read-side sections or inside synchronize_rcu() at fork time, which steps the child performs "
+        "machine, RT or futex-woken), for bp up to three other threads that may be inside read-side sections or inside synchronize_rcu() at fork time and one of which may fork as well (urcu-bp handlers only, a signal mask of its own, which parent and child must get back), which steps the child performs "
         "(read-side section, synchronize_rcu, call_rcu, rcu_barrier, hash-table additions and destruction, a second-generation fork, creation of a resizable table of its own, a callback queued inside a read-side section that must not run before the section ends), optionally a plain (unregistered) application thread that creates the process's first resizable hash table around the time of the fork, the flavor, and a schedule that decides where every "
         "helper thread is when the handlers run. The forked child is a real process driven by the same engine (only the forking thread exists in it). Oracle: the "
         "child completes all its steps (deadlock / no-progress / 10x budget rules in the child process), every callback pending at the fork runs exactly once in "
